@@ -10,6 +10,7 @@ CONSTANTS
   MaxHist = 5
   AsFound_VarListCached = FALSE
   AsFound_TraceBreaksFunctions = TRUE
+  Hyp_IdResetPerModel = FALSE
 INVARIANT TypeOK
 INVARIANT C17_HistoryIndependent
 INVARIANT C17_ReparseClean
